@@ -2,6 +2,9 @@
   The index invariant of `IndexedAdvancedHTMLParser` (C07) and its preservation.
 
     `matchU p xs`   uids of the elements of `xs` (creation order) that satisfy `p`
+    `classU c xs`   what `_classNameMap[c]` holds: the uid of every element of `xs`, once per occurrence of `c` in
+                    its class list (`class="a a"` is listed twice under `a` — `_indexClassName` loops over
+                    `tag.classNames` without de-duplication; the lookups wrap the list in a `TagCollection`)
     `Idx.Good i`    structural well-formedness of an index state: `indexFunctions` mirrors the flags, the two
                     dicts of the attribute indexes have the same keys, no key twice
     `Idx.Holds i xs` every installed map lists, per key, exactly the matching elements of `xs`, in order
@@ -18,6 +21,32 @@ theorem matchU_snoc (p : Elem → Bool) (xs : List Elem) (e : Elem) :
     matchU p (xs ++ [e]) = matchU p xs ++ (if p e then [e.uid] else []) := by
   by_cases h : p e <;> simp [matchU, List.filter_append, h]
 
+/-- the entry of `_classNameMap` under `c` for the elements `xs` indexed in this order: every element once per
+    occurrence of `c` in its class list -/
+def classU (c : Str) (xs : List Elem) : List Nat := xs.flatMap (fun e => List.replicate (e.classes.count c) e.uid)
+
+theorem classU_snoc (c : Str) (xs : List Elem) (e : Elem) :
+    classU c (xs ++ [e]) = classU c xs ++ List.replicate (e.classes.count c) e.uid := by
+  simp [classU, List.flatMap_append]
+
+/-- without repeated class names the entry is the list of matching elements, each once -/
+theorem classU_eq_matchU (c : Str) (xs : List Elem) (h : ∀ e ∈ xs, e.classes.Nodup) :
+    classU c xs = matchU (pClass c) xs := by
+  induction xs with
+  | nil => rfl
+  | cons e xs ih =>
+    have ih' := ih (fun x hx => h x (List.mem_cons_of_mem _ hx))
+    have hn := h e List.mem_cons_self
+    simp only [classU, List.flatMap_cons] at ih' ⊢
+    rw [ih']
+    by_cases hc : c ∈ e.classes
+    · have h1 : e.classes.count c = 1 := by rw [List.Nodup.count hn, if_pos hc]
+      have h2 : pClass c e = true := by simp [pClass, Elem.hasClass, hc]
+      simp [matchU, List.filter_cons, h1, h2]
+    · have h1 : e.classes.count c = 0 := List.count_eq_zero.mpr hc
+      have h2 : pClass c e = false := by simp [pClass, Elem.hasClass, hc]
+      simp [matchU, List.filter_cons, h1, h2]
+
 namespace Idx
 
 structure Good (i : Idx) : Prop where
@@ -29,7 +58,7 @@ structure Good (i : Idx) : Prop where
 structure Holds (i : Idx) (xs : List Elem) : Prop where
   tags : i.fnTagNames = true → ∀ q, assocGet i.tagNameMap q = matchU (pTag q) xs
   names : i.fnNames = true → ∀ q, q ≠ [] → assocGet i.nameMap q = matchU (pAttr (str "name") q) xs
-  classes : i.fnClassNames = true → ∀ c, assocGet i.classNameMap c = matchU (pClass c) xs
+  classes : i.fnClassNames = true → ∀ c, assocGet i.classNameMap c = classU c xs
   ids : i.fnIDs = true → ∀ q, q ≠ [] → i.idMap.lookup q = (matchU (pAttr (str "id") q) xs).getLast?
   others : ∀ a m, a ∈ i.otherFns → i.other.lookup a = some m → ∀ v, assocGet m v = matchU (pAttr a v) xs
 
@@ -97,28 +126,23 @@ theorem name_step (m : List (Str × List Nat)) (e : Elem) (q : Str) (hq : q ≠ 
           simp [this]
         simp [hqv, this]
 
-theorem class_fold (u : Nat) (c : Str) : ∀ (cs : List Str) (m : List (Str × List Nat)), cs.Nodup →
-    assocGet (cs.foldl (fun m c => assocPush m c u) m) c = assocGet m c ++ (if c ∈ cs then [u] else [])
-  | [], m, _ => by simp
-  | c0 :: cs, m, hn => by
-    have hn' := List.nodup_cons.mp hn
+theorem class_fold (u : Nat) (c : Str) : ∀ (cs : List Str) (m : List (Str × List Nat)),
+    assocGet (cs.foldl (fun m c => assocPush m c u) m) c = assocGet m c ++ List.replicate (cs.count c) u
+  | [], m => by simp
+  | c0 :: cs, m => by
     simp only [List.foldl_cons]
-    rw [class_fold u c cs _ hn'.2, assocGet_push]
+    rw [class_fold u c cs, assocGet_push]
     by_cases h0 : c = c0
     · subst h0
-      simp [hn'.1]
-    · simp [h0]
+      simp [List.count_cons_self, List.replicate_succ]
+    · have : (c0 == c) = false := by simpa using Ne.symm h0
+      simp [h0, List.count_cons, this]
 
-theorem class_step (m : List (Str × List Nat)) (e : Elem) (hn : e.classes.Nodup) (c : Str) (xs : List Elem)
-    (h : assocGet m c = matchU (pClass c) xs) :
-    assocGet (e.classes.foldl (fun m c => assocPush m c e.uid) m) c = matchU (pClass c) (xs ++ [e]) := by
-  rw [class_fold e.uid c e.classes m hn, matchU_snoc, h]
-  congr 1
-  by_cases hc : c ∈ e.classes
-  · have : pClass c e = true := by simp [pClass, Elem.hasClass, hc]
-    simp [hc, this]
-  · have : pClass c e = false := by simp [pClass, Elem.hasClass, hc]
-    simp [hc, this]
+/-- `_indexClassName` on one element — for every class list, repeated names included -/
+theorem class_step (m : List (Str × List Nat)) (e : Elem) (c : Str) (xs : List Elem)
+    (h : assocGet m c = classU c xs) :
+    assocGet (e.classes.foldl (fun m c => assocPush m c e.uid) m) c = classU c (xs ++ [e]) := by
+  rw [class_fold e.uid c e.classes m, classU_snoc, h]
 
 theorem getLast?_append_ite (l : List Nat) (b : Bool) (u : Nat) :
     (l ++ (if b then [u] else [])).getLast? = if b then some u else l.getLast? := by
@@ -251,8 +275,8 @@ theorem indexTag_good {i : Idx} (h : Good i) (e : Elem) : Good (indexTag i e) :=
   simp only [indexOthers]
   rw [indexOther_fold_keys]
 
-theorem indexTag_holds {i : Idx} (hg : Good i) {xs : List Elem} (h : Holds i xs) (e : Elem)
-    (hc : e.classes.Nodup) : Holds (indexTag i e) (xs ++ [e]) := by
+theorem indexTag_holds {i : Idx} (hg : Good i) {xs : List Elem} (h : Holds i xs) (e : Elem) :
+    Holds (indexTag i e) (xs ++ [e]) := by
   rw [indexTag_eq]
   refine ⟨?_, ?_, ?_, ?_, ?_⟩
   · intro hf q
@@ -269,7 +293,7 @@ theorem indexTag_holds {i : Idx} (hg : Good i) {xs : List Elem} (h : Holds i xs)
     have hf' : i.fnClassNames = true := hf
     show assocGet (if i.fnClassNames = true then (indexClassName i e).classNameMap else i.classNameMap) c = _
     simp only [hf', if_true, indexClassName]
-    exact class_step _ e hc c xs (h.classes hf' c)
+    exact class_step _ e c xs (h.classes hf' c)
   · intro hf q hq
     have hf' : i.fnIDs = true := hf
     show (if i.fnIDs = true then (indexID i e).idMap else i.idMap).lookup q = _
@@ -292,13 +316,13 @@ theorem fold_good {i : Idx} (h : Good i) (es : List Elem) : Good (es.foldl index
   | nil => exact h
   | cons e es ih => exact ih (indexTag_good h e)
 
-theorem fold_holds {i : Idx} (hg : Good i) {xs : List Elem} (h : Holds i xs) (es : List Elem)
-    (hc : ∀ e ∈ es, e.classes.Nodup) : Holds (es.foldl indexTag i) (xs ++ es) := by
+theorem fold_holds {i : Idx} (hg : Good i) {xs : List Elem} (h : Holds i xs) (es : List Elem) :
+    Holds (es.foldl indexTag i) (xs ++ es) := by
   induction es generalizing i xs with
   | nil => simpa using h
   | cons e es ih =>
-    have h1 := indexTag_holds hg h e (hc e List.mem_cons_self)
-    have := ih (indexTag_good hg e) h1 (fun x hx => hc x (List.mem_cons_of_mem _ hx))
+    have h1 := indexTag_holds hg h e
+    have := ih (indexTag_good hg e) h1
     simpa [List.append_assoc] using this
 
 /-! #### `_resetIndexInternal` -/
@@ -442,7 +466,9 @@ theorem matchU_creationOrder (p : Elem → Bool) (doc : Node) :
 
 end Idx
 
-/-- "class lists carry no repeated name" — what the class index presupposes to list an element once. -/
+/-- "class lists carry no repeated name" — NOT a hypothesis of any C07 theorem any more (with a repeated name the
+    class map lists the element once per occurrence — `classU` — and the lookups de-duplicate); kept for
+    `classU_eq_matchU`: under it the map lists every matching element exactly once. -/
 def ClassesNodup (doc : Node) : Prop := ∀ e ∈ creationOrder doc, e.classes.Nodup
 
 end AHP.G3
